@@ -605,7 +605,7 @@ def importer_records_iff_capturable(ctx, F):
     for side, prow in (("White", 4), ("Black", 3)):
         other = "Black" if side == "White" else "White"
         contents = {"empty": NONE, "own pawn": piece("Pawn", side), "enemy pawn": piece("Pawn", other), "own rook": piece("Rook", side)}
-        for c in (0, 3, 7):
+        for c in range(8):
             a0 = {p_: ("variant", PL_ + side) for p_ in players}
             # the value of the one free variable of the recorded column (the file byte) that makes the column c
             if len(free) == 1:
